@@ -191,6 +191,19 @@ def record(plan, tier, seed, bins, wd, scale, tag):
 
     with cf.ThreadPoolExecutor(JOBS) as ex:
         slices = list(ex.map(gen, gens))
+    # spec -> impl: behaviour sets enumerated by TLC (spec/GenBehaviours.tla), replayed into the real code
+    if not tag:
+        for sg in plan.get("specgen", []):
+            gfile = os.path.join(wd, "traces", "gen_%s.ndjson" % sg["gen"])
+            rc, log, dt = tlc(["-workers", "1", "-config", "GenBehaviours.cfg", "GenBehaviours.tla"],
+                              {"GEN": sg["gen"], "GENOUT": gfile, "XMX": "4g"}, os.path.join(wd, "md_gen_" + sg["gen"]), 900)
+            if "GENERATED" not in log or not os.path.exists(gfile):
+                raise ToolError("behaviour generation failed (%s)\n%s" % (sg["gen"], log[-1500:]))
+            out = os.path.join(wd, "traces", "specgen_%s_%s_0.ndjson" % (sg["gen"], sg["variant"]))
+            rc, o = sh([bins[sg["variant"]], "replay", gfile, out], timeout=900)
+            if rc != 0:
+                raise ToolError("replay of generated behaviours failed: " + o[-500:])
+            slices.append((out, {"family": "specgen_" + sg["gen"], "variant": sg["variant"]}))
     # C11-style merged traces: interleave the groups of two configurations (text only)
     for m in plan.get("merge", []):
         merged = []
@@ -256,7 +269,7 @@ def main():
 
 
 def run(prop, plan, tier, seed, replay, wd, known, t0):
-    variants = sorted({j["variant"] for j in plan.get("traces", [])} | ({"std"} if replay else set()))
+    variants = sorted({j["variant"] for j in plan.get("traces", [])} | {j["variant"] for j in plan.get("specgen", [])} | ({"std"} if replay else set()))
     bins = {v: build_harness(v) for v in variants}
 
     # ---------------- record traces from the real code
